@@ -262,7 +262,7 @@ fn default_pair(c: Cont, alt: bool) -> (TileFormat, TileCompression) {
 pub fn run(ctx: Arc<Ctx>) {
 	ctx.rule(
 		"tile sets: BFS from the empty set by 'add (coordinate, payload)' over 14 coordinates x 5 payloads (canonical form = sorted map) to depth 2 (quick) / 3 (thorough; file-based targets depth 2), \
-		 x 5 target formats x two (format, compression) pairs; every accepted (format, compression) pair x representative sets; named families (dense 130x130 at z=8 -> PMTiles leaf directories, full z0..4 pyramid, 70/100 KiB payloads, level-31 corners, PMTiles root/leaf switch sweep + counts k*4096 and k*4096+1 (thorough: -1..+2) for k=1..5, diamond-shaped sparse levels). \
+		 x 5 target formats x two (format, compression) pairs; every accepted (format, compression) pair x representative sets; named families (dense 130x130 at z=8 -> PMTiles leaf directories, full z0..4 pyramid, 70/100 KiB payloads, level-31 corners, PMTiles root/leaf switch sweep + counts k*4096 and k*4096+1 (thorough: -1..+2) for k=1..5, diamond-shaped sparse levels, tiles of one block that differ in a single byte at swept positions); every format written to a path that already holds an earlier output (superset, shifted set, same coordinates with equal-size / longer payloads). \
 		 oracle: repository reader lookups + streams = independent decoder = source mapping; header fields (zoom range includes the stored levels, bounds valid and containing the top level's tile centres, PMTiles counters 0 or exact, MBTiles minzoom/maxzoom/bounds rows) consistent with the stored tiles. non-trivial = distinct tile sets spanning >= 2 blocks of a level, with duplicate payloads, payloads on both sides of 1000 bytes, or a zoom gap",
 	);
 	ctx.assume("compression libraries (flate2, brotli) and SQLite are the trusted base shared with the repository; the independent decoders are cross-validated against the repository's writers on this very space");
@@ -370,6 +370,19 @@ pub fn run(ctx: Arc<Ctx>) {
 	}
 	diamond.insert((2, 1, 1), b"z2".to_vec());
 	fams.push(("diamond-shaped sparse levels (extreme rows only in inner columns), zoom gap".into(), diamond, all.clone()));
+	// tiles of one block that differ in a single byte, the position sweeping over the payload (head, middle, tail):
+	// anything that recognises equal tiles by less than their full content confuses them
+	for (len, name) in [(300usize, "300-byte"), (999, "999-byte"), (2000, "2000-byte")] {
+		let mut near = TileMap::new();
+		let positions: Vec<usize> = (0..12).chain((len / 2 - 4)..(len / 2 + 4)).chain((len - 12)..len).collect();
+		for (i, p) in positions.iter().enumerate() {
+			let mut v: Vec<u8> = (0..len).map(|j| b"near-duplicate tile payload "[j % 28]).collect();
+			v[*p] = b'#';
+			near.insert((9, 300 + (i % 8) as u32, 300 + (i / 8) as u32), v);
+		}
+		near.insert((9, 310, 310), (0..len).map(|j| b"near-duplicate tile payload "[j % 28]).collect());
+		fams.push((format!("{} tiles of one block, {name}, pairwise different in one byte (head / middle / tail)", near.len()), near, all.clone()));
+	}
 	let famr = &fams;
 	let jobs: Vec<(usize, Cont)> = fams.iter().enumerate().flat_map(|(i, f)| f.2.iter().map(move |c| (i, *c))).collect();
 	let jr = &jobs;
@@ -386,6 +399,8 @@ pub fn run(ctx: Arc<Ctx>) {
 	ctx.extra_add("wall_ms_after_families", (ctx.elapsed() * 1000.0) as u64);
 	// 4. PMTiles root/leaf switch: tile counts around the point where the root directory no longer fits into 16 KiB
 	pm_switch_sweep(&ctx, &wpath);
+	// 5. the target path already holds an earlier output
+	rewrite_existing(&ctx, &wpath);
 	ctx.exhaustive(true);
 	drop(work);
 }
@@ -479,6 +494,92 @@ fn pm_switch_sweep(ctx: &Arc<Ctx>, work: &Path) {
 		});
 		ctxr.outcome_n(&format!("pmtiles switch sweep '{fname}': switch at {switch} tiles, counts checked"), ns.len() as u64);
 	}
+}
+
+/// Writing to a path that already holds an earlier output of the same format: afterwards the container holds the
+/// new tile set (for a directory target: the new tiles at their coordinates; files of the earlier export that the
+/// new set does not name are the caller's business and not judged). Earlier outputs: a superset, a shifted set,
+/// the same coordinates with other payloads of the same sizes.
+fn rewrite_existing(ctx: &Arc<Ctx>, work: &Path) {
+	let mk = |coords: &[Key], tag: &str, len: usize| -> TileMap {
+		coords.iter().map(|k| (*k, format!("{tag} {}/{}/{} {}", k.0, k.1, k.2, "x".repeat(len)).into_bytes())).collect()
+	};
+	let base: Vec<Key> = vec![(0, 0, 0), (1, 0, 0), (1, 1, 1), (3, 2, 2), (3, 3, 2), (9, 255, 256), (9, 256, 256)];
+	let new_set = mk(&base[1..6], "new", 40);
+	let earlier: Vec<(&str, TileMap)> = vec![
+		("a superset of the new coordinates (other zoom levels, wider boxes)", mk(&base, "old", 40)),
+		("a shifted set", mk(&[(1, 1, 0), (3, 0, 0), (3, 2, 2), (4, 15, 15)], "old", 40)),
+		("the same coordinates with other payloads of the same sizes", mk(&base[1..6], "old", 40)),
+		("the same coordinates with longer payloads", mk(&base[1..6], "old", 300)),
+	];
+	let mut jobs = vec![];
+	for cont in ct::ALL_CONT {
+		for e in 0..earlier.len() {
+			for alt in [false, true] {
+				jobs.push((cont, e, alt));
+			}
+		}
+	}
+	let (ctxr, jr, er, nr): (&Ctx, _, _, _) = (ctx, &jobs, &earlier, &new_set);
+	par_for(jobs.len(), |ji| {
+		let (cont, e, alt) = jr[ji];
+		let (ename, etiles) = &er[e];
+		let rt = tokio::runtime::Builder::new_current_thread().build().unwrap();
+		let (f, cp) = default_pair(cont, alt);
+		let path = work.join(format!("rw{ji}.{}", ct::ext(cont)));
+		let _ = std::fs::remove_file(&path);
+		let _ = std::fs::remove_dir_all(&path);
+		let cn = cont.name();
+		let label = format!("{cn} {}/{cp:?}: new set written to a path holding {ename}", ct::format_name(f));
+		let case = json!({"kind": "rewrite", "cont": cont, "earlier": ename, "alt": alt});
+		ctxr.eval();
+		ctxr.transition(2);
+		let mut first = MemSource::new("old", etiles.clone(), f, cp).with_fast_stream();
+		if let Err(e) = ct::write_to_existing_path(&rt, cont, &mut first, &path) {
+			return ctxr.violation(&format!("{cn}: writer fails: {}", norm_msg(&e)), &format!("{label} (first write): {e}"), case);
+		}
+		let mut second = MemSource::new("new", nr.clone(), f, cp).with_fast_stream();
+		let w = match ct::write_to_existing_path(&rt, cont, &mut second, &path) {
+			Ok(w) => w,
+			Err(e) => return ctxr.violation(&format!("{cn}: writer fails on a path that holds an earlier output: {}", norm_msg(&e)), &format!("{label}: {e}"), case),
+		};
+		ctxr.trace(1);
+		let judge = |got: &TileMap, via: &str| {
+			for (k, v) in nr.iter() {
+				match got.get(k) {
+					Some(g) if g == v => {}
+					Some(g) => ctxr.violation(&format!("{cn}: after writing over an earlier output a tile still carries the earlier payload ({via})"), &format!("{label}: {k:?} holds {:?}", String::from_utf8_lossy(&g[..g.len().min(30)])), case.clone()),
+					None => ctxr.violation(&format!("{cn}: after writing over an earlier output a tile of the new set is missing ({via})"), &format!("{label}: {k:?}"), case.clone()),
+				}
+			}
+			if cont != Cont::Directory {
+				if let Some((k, _)) = got.iter().find(|(k, _)| !nr.contains_key(*k)) {
+					ctxr.violation(&format!("{cn}: after writing over an earlier output the container holds tiles of the earlier output ({via})"), &format!("{label}: {k:?}"), case.clone());
+				}
+			}
+		};
+		match ct::independent_decode(cont, &w) {
+			Ok(d) => judge(&d.tiles, "independent decoder"),
+			Err(e) => ctxr.violation(&format!("{cn}: written file does not follow the published layout: {}", norm_msg(&e)), &format!("{label}: {e}"), case.clone()),
+		}
+		match ct::open(&rt, cont, &w) {
+			Err(e) => ctxr.violation(&format!("{cn}: reader cannot open what the writer wrote: {}", norm_msg(&e)), &format!("{label}: {e}"), case.clone()),
+			Ok(r) => {
+				let mut probes: Vec<Key> = nr.keys().copied().collect();
+				probes.extend(etiles.keys().copied());
+				probes.sort();
+				probes.dedup();
+				match catch(|| memsource::lookups(&rt, r.as_ref(), &probes)) {
+					Ok(Ok(got)) => judge(&got, "lookups"),
+					Ok(Err(e)) => ctxr.violation(&format!("{cn}: lookup fails: {}", norm_msg(&e)), &format!("{label}: {e}"), case.clone()),
+					Err(p) => ctxr.violation(&format!("{cn}: lookup panics at {}", panic_site(&p)), &format!("{label}: {p}"), case.clone()),
+				}
+			}
+		}
+		ct::cleanup(&w);
+		ctxr.nontrivial(fnv_str(&format!("rewrite{ji}")));
+	});
+	ctx.outcome_n("rewrites over an earlier output (format x earlier content x (format, compression) pair)", jobs.len() as u64);
 }
 
 pub fn replay(ctx: Arc<Ctx>, case: &Value) {
